@@ -278,7 +278,12 @@ class Model:
         ns = op['new_ns']
         mode = None
         if ns == 'iso' and self.rr:
-            mode = op.get('_mode')
+            # the new name takes the POSIX mode of the ISO9660 name it links to; linked from elsewhere it gets the default
+            mode = 0o100444
+            if op['old_ns'] == 'iso':
+                old = self.get('iso', op['old'])
+                if old is not None and old.mode is not None:
+                    mode = old.mode
         self._insert(ns, op['new'], self._node('file', blob=blob, rr=op.get('rr') if ns == 'iso' else None, mode=mode))
 
     def op_rm_link(self, op):
@@ -359,6 +364,11 @@ class Model:
 
     def op_set_relocated_name(self, op):
         self.rr_moved_name = (op['name'], op['rr'])
+
+    def stored_bytes(self):
+        """Lower bound of the file data in the image (what a partition offset has to stay below)."""
+        live = {n.blob for ns in self.roots for _, n in self.iter_ns(ns) if n.kind == 'file' and isinstance(n.blob, int)}
+        return sum(self.blobs[b].length for b in live if b in self.blobs)
 
     def moved_names(self):
         return tuple(self.rr_moved_actual or self.RR_MOVED)
@@ -677,6 +687,8 @@ def valid(m, op):
             return False     # refused since the fix 'refuse a hybrid partition entry that the EFI or Mac image needs'
         if op.get('mac') and op.get('part_type') not in (None, 0):
             return False
+        if (op.get('part_offset') or 0) > 64 and (op.get('part_offset') or 0) * 512 * 1.25 > m.stored_bytes():
+            return False     # outside the modelled domain: a partition that starts behind the end of the image
         n_efi = len([e for e in m.eltorito['entries'][1:] if e.get('efi')])
         if efi and n_efi < 1:
             return False     # refused since the fix 'add_isohybrid refuses EFI support without an EFI boot entry'
